@@ -221,3 +221,18 @@ Definition crash_check (c : cfg) (s0 : st) (setup prog : list ccall) (events : l
            end
   | _, _ => -2
   end.
+
+(* ------------------------------------------------------------------ the harness's reference dictionary
+   The verdicts of the linearizability monitors (C05, C06, C07, C11) are computed against a small reference
+   dictionary written in Python from the property text (harness/props/c05.py RefCache).  `seq_check` runs the
+   same program through the machine with one client (no interleaving) and compares the outcomes with the
+   reference's: the reference is tied to the model the theorems are about (and which `call_run_is_step`
+   identifies with the sequential model validated against the implementation).
+   -1 agreement; -2 outside the instance; -3 the outcomes differ *)
+Definition seq_check (c : cfg) (prog : list ccall) (seen0 : list seen) : Z :=
+  match compile_all c prog with
+  | Some p =>
+      let c1 := solo (20 * S (length p)) (init_config init_st (prog_fun [] p)) 0 in
+      if finished c1 0 && outcomes_match (c_done (cl c1 0)) seen0 then -1 else -3
+  | None => -2
+  end.
